@@ -75,10 +75,12 @@ def replay(scn):
     for kind in ("i", "f", "s"):
         codec = A.LabelCodec()
         kinds = [kind] * len(a_abs["dims"])
-        for form in (0, 1):
+        for form in (0, 1, 2):
             a = A.gamma(a_abs, codec, kinds)
             before = A.snapshot(a)
-            ax = (a_abs["dims"][d] if form == 0 else d) if i["d"] else None
+            if form == 2 and (not i["d"] or op in ("fillna", "setna")):
+                continue
+            ax = (a_abs["dims"][d] if form == 0 else (d if form == 1 else d - a.ndim)) if i["d"] else None
             variant = "kind=%s form=%d" % (kind, form)
             calls += 1
             what = None
